@@ -151,16 +151,18 @@ package prunner
 //@ pure TtaskCanceled() bool = forall x *jobTask :: old(x.Canceled) ==> x.Canceled
 //@ pure Tcanceled() bool = forall j *PipelineJob :: wasAllocated(j) && (old(j.Canceled) || old(j.Start) != nil) ==> j.Start == old(j.Start) && j.LastError == old(j.LastError) && j.sched == old(j.sched) && j.startTimer == old(j.startTimer) && j.Canceled == old(j.Canceled)
 
+//@ pure taskFromDef(e *jobTask, tasks map[string]definition.TaskDef) bool = (e.Name in tasks) && e.Script == tasks[e.Name].Script && e.DependsOn == tasks[e.Name].DependsOn && e.AllowFailure == tasks[e.Name].AllowFailure && e.Env == tasks[e.Name].Env && e.Status == "waiting" && e.Start == nil && e.End == nil && !e.Errored && !e.Canceled && !e.Skipped && e.Error == nil
 //@ func buildJobTasks
 //@   lockmode any
-//@   trusted builds a fresh task list from the definition (sortTasksByDependencies: nested maps, library sorts and a closure are outside the verifier's subset; order checked by a bounded stand-in)
 //@   ensures [fresh] fresh(base(result)) && off(result) == 0
+//@   ensures [C16.copy] len(result) == len(tasks) && all(result, taskFromDef, tasks)
 //@   modifies nothing
+//@   loop 1 invariant [copy] fresh(base(result)) && off(result) == 0 && wf(result) && len(result) == card($seen) && all(result, taskFromDef, tasks) && (forall k string :: $seen[k] ==> (k in tasks))
 
 //@ func (jobTasks).sortTasksByDependencies
 //@   lockmode any
 //@   trusted Kahn's algorithm over nested maps, two library sorts and a closure: outside the verifier's subset; it only permutes the given task list in place
-//@   ensures [perm] sameOutside("jobTask.*", jt)
+//@   ensures [perm] sameOutside("jobTask.*", jt) && permOf(jt)
 //@   modifies jobTask.*
 
 //@ func buildPipelineGraph
@@ -312,6 +314,7 @@ package prunner
 
 //@ func toStatus
 //@   lockmode any
+//@   ensures [names] (status == scheduler.StatusWaiting ==> res == "waiting") && (status == scheduler.StatusRunning ==> res == "running") && (status == scheduler.StatusSkipped ==> res == "skipped") && (status == scheduler.StatusDone ==> res == "done") && (status == scheduler.StatusError ==> res == "error") && (status == scheduler.StatusCanceled ==> res == "canceled")
 //@   modifies nothing
 
 //@ func (*PipelineRunner).HandleTaskChange
@@ -488,7 +491,7 @@ package prunner
 // Mapping of obligations to the fixed property ids (glob patterns on obligation names)
 //
 //@ property C01: prunner.(*PipelineJob).isRunning/ensures* prunner.(*PipelineRunner).runningJobsCount/ensures* prunner.(*PipelineRunner).runningJobsCount/loop* prunner.*/ensures[C01.*] prunner.*/call-pre[(*PipelineRunner).startJob.slotFree]* prunner.*/call-pre[(*PipelineRunner).startJob.notStarted]* prunner.*/call-pre[(*PipelineRunner).startJob.offList]* prunner.*/ensures[T] prunner.*/loop*/inv-*[T] prunner.*/monitor[RI] prunner.*/ensures[ri] prunner.*/call-pre[*.ri]* prunner.*/loop*/inv-*[ri] prunner.*/assert[C01.*] prunner.*/assert[cnt*] lemma/cntFrame* prunner/writers[PipelineJob.Start] prunner/writers[PipelineJob.Completed] prunner/writers[PipelineJob.Canceled] prunner.*/call-pre[(*PipelineRunner).startJob$1.token]* prunner.(*PipelineRunner).startJobsOnWaitList/* prunner.(*PipelineRunner).startJob/* prunner.(*PipelineRunner).cancelJobInternal/* prunner.removeJobFromWaitList/*
-//@ property C03: prunner.*/ensures[C03.*] prunner.*/monitor[RI] prunner.*/ensures[ri] prunner.*/call-pre[*.ri]* prunner.*/loop*/inv-*[ri] prunner.(*PipelineRunner).startJobsOnWaitList/loop* prunner.(*PipelineRunner).startJob/ensures[skipCanceled] prunner.removeJobFromWaitList/* prunner.*/ensures[C05.offList] prunner.*/ensures[C16.defsOnly] prunner.(*PipelineRunner).startJobsOnWaitList/* prunner.(*PipelineRunner).startJob/* prunner.(*PipelineRunner).cancelJobInternal/* prunner.removeJobFromWaitList/*
+//@ property C03: prunner.*/ensures[C03.*] prunner.*/monitor[RI] prunner.*/ensures[ri] prunner.*/call-pre[*.ri]* prunner.*/loop*/inv-*[ri] prunner.(*PipelineRunner).startJobsOnWaitList/loop* prunner.(*PipelineRunner).startJob/ensures[skipCanceled] prunner.removeJobFromWaitList/* prunner.*/ensures[C05.offList] prunner.*/ensures[C16.defsOnly] prunner.(*PipelineRunner).startJobsOnWaitList/* prunner.(*PipelineRunner).startJob/* prunner.(*PipelineRunner).cancelJobInternal/* prunner.removeJobFromWaitList/* prunner.*/ensures[C12.keepLive] prunner.(*PipelineRunner).SaveToStore/loop*
 //@ property C04: prunner.*/assert[C04.*] prunner.*/ensures[C04.*] prunner.(*PipelineRunner).startJob/ensures[skipCanceled] prunner.*/ensures[T] prunner.(*PipelineJob).markAsCanceled/* prunner.*/call-pre[(*PipelineRunner).startJob.*]* prunner/writers[PipelineJob.Canceled] prunner.*/monitor[RI]
 //@ property C05: prunner.*/ensures[C05.*] prunner.*/monitor[RI] prunner.*/ensures[ri] prunner.*/call-pre[*.ri]* prunner.*/loop*/inv-*[ri] prunner.removeJobFromWaitList/* prunner.(*PipelineRunner).runningJobsCount/* prunner.*/ensures[C15.reject] prunner.*/ensures[C15.accept] lemma/cntFrame* prunner.*/loop*/inv-*[others] prunner.*/loop*/inv-*[mine] prunner.*/loop*/inv-*[purged] prunner.(*PipelineRunner).startJobsOnWaitList/* prunner.(*PipelineRunner).startJob/* prunner.(*PipelineRunner).cancelJobInternal/* prunner.removeJobFromWaitList/*
 //@ property C06: prunner.*/ensures[C06.*] prunner.(*PipelineRunner).ScheduleAsync/ensures[C05.queue] prunner.(*PipelineRunner).ScheduleAsync/ensures[C05.replace] prunner.(*PipelineRunner).ScheduleAsync/ensures[C05.start] prunner.(*PipelineRunner).startJobsOnWaitList/loop* prunner.*/call-pre[(*PipelineRunner).startJob.offList]* prunner.removeJobFromWaitList/* prunner.*/monitor[RI] prunner.*/ensures[C12.waitLists] prunner.(*PipelineRunner).startJobsOnWaitList/* prunner.(*PipelineRunner).startJob/* prunner.(*PipelineRunner).cancelJobInternal/* prunner.removeJobFromWaitList/* prunner.*/ensures[T] prunner.*/ensures[ri] prunner.*/call-pre[*.ri]*
@@ -499,5 +502,5 @@ package prunner
 //@ property C13: prunner.*/lock[read] prunner.*/lock[write] prunner.*/lockproto[*] prunner.*/call-pre[*.lockmode]* prunner.*/call-pre[*.guard]* prunner.*/call-pre[*.empty]* prunner.*/ensures[unpublished]
 //@ property C15: prunner.*/ensures[C15.*] prunner.(*PipelineRunner).resolveScheduleAction/ensures[range] prunner.(*PipelineRunner).isRunning/loop* prunner.(*PipelineRunner).ReadJob/* prunner.(*PipelineRunner).IterateJobs/ensures* prunner.(*PipelineRunner).ListPipelines/ensures* prunner.(*PipelineRunner).ListPipelines/loop* prunner.(*PipelineJob).isRunning/ensures*
 //@ property C08: prunner.*/assert[C08.*] prunner.(*PipelineRunner).JobCompleted/ensures[C04.verdict] prunner.*/assert[C04.cancelMeansError] prunner.(jobTasks).ByName/*
-//@ property C16: prunner.*/ensures[C16.*] prunner.*/ensures[defs] prunner.(*PipelineRunner).resolveDequeueJobAction/ensures[C03.dequeueDecision] prunner/writers[PipelineJob.Tasks] prunner/writers[PipelineJob.Env] prunner/writers[PipelineJob.Variables] prunner/writers[PipelineJob.StartDelay] prunner/writers[PipelineRunner.defs] prunner.*/call-pre[(*PipelineRunner).startJob.timerDone]*
+//@ property C16: prunner.*/ensures[C16.*] prunner.*/ensures[defs] prunner.(*PipelineRunner).resolveDequeueJobAction/ensures[C03.dequeueDecision] prunner/writers[PipelineJob.Tasks] prunner/writers[PipelineJob.Env] prunner/writers[PipelineJob.Variables] prunner/writers[PipelineJob.StartDelay] prunner/writers[PipelineRunner.defs] prunner.*/call-pre[(*PipelineRunner).startJob.timerDone]* prunner.buildJobTasks/* prunner.toStatus/ensures*
 //@ property C02: prunner.*/call-pre[(*PipelineRunner).startJob.notStarted]* prunner/writers[PipelineJob.Start] prunner.(*PipelineRunner).startJob/ensures[graphError] prunner.(*PipelineRunner).startJob/ensures[T] prunner.*/assert[C01.order] prunner.*/assert[C04.cancelMeansError] prunner.*/call-pre[(*PipelineRunner).startJob.offList]* prunner.(*PipelineRunner).startJobsOnWaitList/*
